@@ -1,10 +1,15 @@
 package checks
 
 import (
+	"errors"
 	"fmt"
+	"regexp"
+	"strconv"
 	"strings"
+	"time"
 
 	"evylang.dev/evy/pkg/evaluator"
+	"evylang.dev/evy/pkg/parser"
 
 	"verif/core"
 	"verif/mon"
@@ -17,7 +22,7 @@ func init() {
 	core.Register(&core.Check{
 		ID:    "C14",
 		Level: "fault_enumeration",
-		Rule:  "generated programs made of segments 'marker print - loop nest or call chain without any built-in call - marker print' with known iteration and call counts, terminating and endless (while true, unbounded recursion, looping handlers, idle loops whose body is a comment or blank line, at top level and in functions), with read, sleep, passing and failing tests and graphics between segments; the uninterrupted run T is recorded with yield marks, then the program is re-run once per stop point k (every yield up to 300 per program in quick, up to 3000 in thorough, plus the last 50) with the stop flag raised inside yield #k, and once per effect with the flag raised from inside the platform call; oracles: density (yields between markers >= iterations + calls; never more than 64 evaluation steps without a yield on the hook) and stop (no yield after the stop, effects are T's prefix plus at most the step in flight, result 'stopped', only the test summary may follow). distinct = distinct (program, stop point) pairs",
+		Rule:  "generated programs made of segments 'marker print - loop nest or call chain without any built-in call - marker print' with known iteration and call counts, terminating and endless (while true, unbounded recursion, looping handlers, idle loops whose body is a comment or blank line, at top level and in functions), with read, sleep, passing and failing tests and graphics between segments; the uninterrupted run T is recorded with yield marks, then the program is re-run once per stop point k (every yield up to 300 per program in quick, up to 3000 in thorough, plus the last 50) with the stop flag raised inside yield #k, and once per effect with the flag raised from inside the platform call; oracles: density (yields between markers >= iterations + calls; never more than 64 evaluation steps without a yield on the hook; a case that burns 15 s of CPU time without reaching a yield or an evaluation step at all is ended by the worker and, confirmed alone, reported as `uninterruptible`) and stop (no yield after the stop, effects are T's prefix plus at most the step in flight, result 'stopped', only the test summary may follow). distinct = distinct (program, stop point) pairs",
 		Assumptions: []string{
 			"a loop inside a built-in that neither yields nor passes through eval (D14's native repetition loop) is not reachable by this monitor",
 			"the stop flag is raised only from inside Yield or inside a platform call, as the browser does (single thread)",
@@ -28,6 +33,7 @@ func init() {
 			}
 			return 128
 		},
+		StallCPU:  15 * time.Second,
 		Run:       c14Run,
 		MinEvents: []string{"programs", "stop_points", "yields_observed", "segments_density_checked"},
 	})
@@ -105,9 +111,12 @@ func c14Program(c *core.Ctx) c14Prog {
 		seg := c14Segment(c, k, &funcs)
 		p.segs = append(p.segs, seg)
 		fmt.Fprintf(&body, "print \"M%d\"\n%sprint \"M%d\"\n", 2*k, seg.code, 2*k+1)
-		switch r.Intn(7) {
+		switch r.Intn(8) {
 		case 5:
 			body.WriteString("test 1 2\ntest false\n")
+		case 6:
+			funcs.WriteString(fmt.Sprintf("func tsum%d:num n:num\n    t := 0\n    for i := range n\n        t = t + i\n    end\n    return t\nend\n", k))
+			body.WriteString(fmt.Sprintf("test (tsum%d 4) 6\ntest 3 (tsum%d 3)\ntest (tsum%d 2) (tsum%d 2) \"msg\"\n", k, k, k, k))
 		case 0:
 			body.WriteString("s = s + (read)\n")
 		case 1:
@@ -152,6 +161,8 @@ func c14Program(c *core.Ctx) c14Prog {
 	return p
 }
 
+var summaryNumRe = regexp.MustCompile(`\d+`)
+
 func isSummary(e string) bool {
 	return strings.HasPrefix(e, "print \"✅") || strings.HasPrefix(e, "print \"❌")
 }
@@ -176,8 +187,9 @@ func c14Run(c *core.Ctx, i int) {
 			// interrupted by the platform; end it here (the stop flag is checked by the next step)
 			conf.StarveLimit = 20000
 			conf.OnStarve = func() { starved = true; ev.Stopped = true }
+			conf.OnStep = c.Progress
 		},
-		OnYield: func(int) { conf.Yielded() }})
+		OnYield: func(int) { conf.Yielded(); c.Progress() }})
 	rec = T.Rec
 	if starved {
 		c.Violation("density-starved", fmt.Sprintf("20000 evaluation steps without a single yield (%s): the platform cannot interrupt this program", p.kind), p.src, nil)
@@ -221,6 +233,7 @@ func c14Run(c *core.Ctx, i int) {
 	if p.kind != "terminating" && p.kind != "looping-handler" && !rec.BudgetHit {
 		c.Violation("endless-program-ended", "an endless program ended by itself: "+T.Class+" "+T.ErrText, p.src, nil)
 	}
+	hasTests := strings.Contains(p.src, "test ")
 	// stop points
 	maxPts := 300
 	if c.Tier == "thorough" {
@@ -242,7 +255,38 @@ func c14Run(c *core.Ctx, i int) {
 	for _, k := range pts {
 		c.Event("stop_points", 1)
 		c.Distinct(fmt.Sprintf("%s|y%d", p.src, k))
-		o := plat.Run(p.src, plat.Opts{Inputs: inputs, Events: p.events, StopAtYield: k, YieldBudget: budget + 10})
+		testsDone := 0
+		opts := plat.Opts{Inputs: inputs, Events: p.events, StopAtYield: k, YieldBudget: budget + 10, OnYield: func(int) { c.Progress() }}
+		if hasTests {
+			// count the test calls that really completed in this interrupted run (hook), to judge the summary
+			opts.Attach = func(ev *evaluator.Evaluator) {
+				ev.VerifObserve(&evaluator.VerifObserver{Exit: func(node parser.Node, _ evaluator.VerifValue, err error) {
+					name := ""
+					switch n := node.(type) {
+					case *parser.FuncCall:
+						name = n.Name
+					case *parser.FuncCallStmt: // a call statement evaluates its call without a step of its own
+						name = n.FuncCall.Name
+					}
+					if name == "test" && (err == nil || errors.Is(err, evaluator.ErrTest)) {
+						testsDone++
+					}
+				}})
+			}
+		}
+		o := plat.Run(p.src, opts)
+		if hasTests && len(o.Events) > 0 && isSummary(o.Events[len(o.Events)-1]) {
+			c.Event("summaries_checked", 1)
+			total := 0
+			for _, m := range summaryNumRe.FindAllString(o.Events[len(o.Events)-1], -1) {
+				v, _ := strconv.Atoi(m)
+				total += v
+			}
+			if total != testsDone {
+				c.Violation("stop-at-yield:summary", fmt.Sprintf("stop raised inside yield %d: the test summary %s counts %d tests, %d test calls had completed", k, o.Events[len(o.Events)-1], total, testsDone), p.src, map[string]any{"stop_at_yield": k})
+				break
+			}
+		}
 		if why := c14Judge(T, o, k, rec.YieldMarks, n); why != "" {
 			c.Violation("stop-at-yield:"+strings.SplitN(why, ":", 2)[0], fmt.Sprintf("stop raised inside yield %d of %d: %s", k, T.Yields, why), p.src, map[string]any{"stop_at_yield": k})
 			break
@@ -260,7 +304,7 @@ func c14Run(c *core.Ctx, i int) {
 		c.Event("stop_points", 1)
 		c.Event("stop_in_effect_points", 1)
 		c.Distinct(fmt.Sprintf("%s|e%d", p.src, k))
-		o := plat.Run(p.src, plat.Opts{Inputs: inputs, Events: p.events, StopAtEffect: k, YieldBudget: budget + 10})
+		o := plat.Run(p.src, plat.Opts{Inputs: inputs, Events: p.events, StopAtEffect: k, YieldBudget: budget + 10, OnYield: func(int) { c.Progress() }})
 		ev := o.Events
 		if len(ev) > 0 && isSummary(ev[len(ev)-1]) {
 			ev = ev[:len(ev)-1]
